@@ -483,6 +483,10 @@ class RandomGen:
                 hs.append(dict(cls=c, name=self.r.choice(['', '', 'ex', self.r.choice(self.names)]) if self.hnames else '',
                                body=self.block(fn, scope + ['ex'] if self.hnames else scope, depth + 1, inloop, infinally)))
             N[i - 1]['handlers'] = hs
+            body = N[i - 1]['body']
+            if infinally and hs and self.contexts and self.r.random() < 0.4 and N[body[-1] - 1]['kind'] not in JUMPS:
+                # inside a finally block a raise is generated only where a handler of the same try catches it
+                body.append(b.node(kind='raise', fn=fn, exc=hs[0]['cls']))
             if hs and self.contexts and self.r.random() < 0.25:      # try / except / else
                 N[i - 1]['orelse'] = self.block(fn, scope, depth + 1, inloop, infinally)
             if not hs or self.r.random() < 0.5:
